@@ -62,6 +62,13 @@ Expected(c) == IF c.ctor = "Quaternion" THEN (IF QuatAccepts(c.shape, c.fill) TH
                     ELSE IF c.mc = "zero" /\ c.route \in {"x=", "y=", "z=", "xyz=", "rpy=", "euler="} THEN "valid"   \* zero angles
                     ELSE "rejected"
 
+(* Stacks: the acceptance of an N-row array is the conjunction of the acceptance of its rows, and every accepted row is normalised by   *)
+(* its OWN norm -- the decade of one row has no bearing on another row of the same array (a common scale factor for the whole array  *)
+(* under- or overflows for rows 10^154 apart).  `decades` is the sequence of row decades, all inside Decades.                       *)
+StackExpected(decades) == IF \A i \in DOMAIN decades : decades[i] \in Decades THEN "valid" ELSE "rejected"
+MixedStacks == { <<100, 0, -100>>, <<-100, 100>>, <<-100, -100, 100, -100>>, <<0, -100, -8>>, <<30, -30, 30, -30, 0>> }     \* concretised by the harness as 10^d times six exact directions
+MixedStacksAccepted == \A d \in MixedStacks : StackExpected(d) = "valid"
+
 Init == call = [ctor |-> "none"] /\ out = "none"
 Construct(c) == call' = c /\ out' = Expected(c)
 Next == \E c \in AllCalls : Construct(c)
